@@ -225,6 +225,11 @@ class Hooks:
         """value of a tracked path read while unknown (lets a rule model input buffers lazily)"""
         return TOP
 
+    def materialize_split(self, E, path):
+        """like materialize, but a partition: the state is split into one path per class, so that a copy
+        of the cell into a local keeps its correlation with the cell"""
+        return None
+
 
 class Env:
     """mutable view of one abstract state handed to hooks"""
@@ -542,6 +547,16 @@ class Engine:
                 if p is not None and self.trackable(p):
                     v = E.store.get(p, TOP)
                     if v is TOP:
+                        parts = self.hooks.materialize_split(E, p)
+                        if parts:
+                            # an input cell read for the first time: one path per class of the partition
+                            outs = []
+                            for cls in parts:
+                                E2 = Env(self, E.frame, dict(E.store), dict(E.temps), E.trace)
+                                E2.set(p, cls)
+                                E2.temps[x.id] = cls
+                                outs.append(E2)
+                            return outs
                         v = self.hooks.materialize(E, p)
                         if v is not TOP:
                             E.set(p, v)
